@@ -43,7 +43,8 @@ def gen_case(rng):
     elif r < 0.9:
       cn = rng.choice(CONST_NAMES)
       pre.append({'op': 'constant', 'name': cn, 'nameValid': True,
-                  'val': ({'o': 300 + rng.randint(0, 9)} if rng.random() < 0.5 else
+                  'val': ({'o': rng.choice([21, 22])} if rng.random() < 0.2 else   # enum members (IntEnum / str enum)
+                          {'o': 300 + rng.randint(0, 9)} if rng.random() < 0.5 else
                           (G.REQ if rng.random() < 0.15 else G.gen_value(rng, 1)))})
       if interactive or not refmodel.suffix_matches(defined, cn):
         defined[cn] = True
